@@ -211,6 +211,12 @@ Obs(src, gets, nths) ==
                   ELSE Panic
         /\ OnlyOut
 
+\* every way of turning a sequence into text gives its display characters (C01)
+ToText(src) ==
+    LET x == Resolve(src)
+    IN  /\ out' = IF x.ok THEN [bytes |-> Display(x.c, x.s)] ELSE Panic
+        /\ OnlyOut
+
 (***************************************************************************)
 (* Equality, hashing, ordering (C02, C10) on resolved CONTENT              *)
 (* An operand is [c, s] (a sequence value in any representation) or        *)
@@ -357,8 +363,8 @@ ItItems(kind, x, y, w) ==
     CASE kind \in {"iter", "intoiter"} -> x.s
       [] kind = "rev" -> RevSeq(x.s)
       [] kind = "chain" -> x.s \o y.s
-      [] kind = "windows" -> [i \in 1 .. NWindows(Len(x.s), w) |-> View(x.c, Windows(x.s, w)[i])]
-      [] kind = "chunks" -> [i \in 1 .. (Len(x.s) \div w) |-> View(x.c, Chunks(x.s, w)[i])]
+      [] kind \in {"windows", "windowsvec"} -> [i \in 1 .. NWindows(Len(x.s), w) |-> View(x.c, Windows(x.s, w)[i])]
+      [] kind \in {"chunks", "chunksvec"} -> [i \in 1 .. (Len(x.s) \div w) |-> View(x.c, Chunks(x.s, w)[i])]
       [] kind = "kmers" -> KmersOf(x, w, 64)
 
 ItNew(i, kind, sx, sy, w) ==
